@@ -41,11 +41,11 @@ def shards(tier, seed):
         out.append({"name": f"cuts{i}", "kind": "cuts", "part": i, "parts": 6 if q else 16,
                     "two_cut_len": 110 if q else 260})
     for i in range(4 if q else 12):
-        out.append({"name": f"random{i}", "kind": "random", "n": 700 if q else 15000})
+        out.append({"name": f"random{i}", "kind": "random", "n": 2500 if q else 15000})
     for i in range(4 if q else 12):
         out.append({"name": f"bad{i}", "kind": "bad", "part": i, "parts": 4 if q else 12, "reps": 2 if q else 12})
-    for i in range(1 if q else 4):
-        out.append({"name": f"node_reads{i}", "kind": "node_reads", "n": 40 if q else 400})
+    for i in range(2 if q else 4):
+        out.append({"name": f"node_reads{i}", "kind": "node_reads", "n": 120 if q else 400})
     return out
 
 
